@@ -242,7 +242,7 @@ func (s *sched) ackAdvert() {
 // hold runs the scripted actions of a hold point while the syncer is blocked in the call.
 func (s *sched) hold(at string, call int, ctx holdCtx) {
 	for _, a := range s.w.scn.Actions {
-		if a.At == at && a.Call == call {
+		if a.At == at && (a.Call == call || (a.Call == -1 && call >= 1)) {
 			s.exec(a, ctx)
 		}
 	}
